@@ -4,6 +4,32 @@ use verifcore::engine::{self, Ctx, Tier};
 use verifcore::findings::Findings;
 use verifcore::props;
 
+/// Counting allocator: records the largest single request while the C09
+/// battery is tracking (deterministic stand-in for "allocation failure on a
+/// machine with less address space").
+struct Tracking;
+
+unsafe impl std::alloc::GlobalAlloc for Tracking {
+    unsafe fn alloc(&self, layout: std::alloc::Layout) -> *mut u8 {
+        verifcore::battery::note_alloc(layout.size());
+        std::alloc::System.alloc(layout)
+    }
+    unsafe fn dealloc(&self, ptr: *mut u8, layout: std::alloc::Layout) {
+        std::alloc::System.dealloc(ptr, layout)
+    }
+    unsafe fn alloc_zeroed(&self, layout: std::alloc::Layout) -> *mut u8 {
+        verifcore::battery::note_alloc(layout.size());
+        std::alloc::System.alloc_zeroed(layout)
+    }
+    unsafe fn realloc(&self, ptr: *mut u8, layout: std::alloc::Layout, new_size: usize) -> *mut u8 {
+        verifcore::battery::note_alloc(new_size);
+        std::alloc::System.realloc(ptr, layout, new_size)
+    }
+}
+
+#[global_allocator]
+static GLOBAL: Tracking = Tracking;
+
 fn usage() -> ! {
     eprintln!("usage: msiverif check <ID> [--tier quick|thorough] [--seed N] [--replay FILE] [--verif-dir DIR]");
     std::process::exit(2);
@@ -11,6 +37,15 @@ fn usage() -> ! {
 
 fn main() {
     let args: Vec<String> = std::env::args().collect();
+    if args.len() == 3 && args[1] == "dump" && args[2] == "C09" {
+        for (name, note, case) in props::c09::canned() {
+            let doc = json!({"property": "C09", "kind": "structured", "case": case, "note": note});
+            let path = format!("{}/regress/C09-{}.json", std::env::var("VERIF_DIR").unwrap_or_else(|_| "/verif".into()), name);
+            std::fs::write(&path, doc.to_string()).unwrap();
+            println!("wrote {path}");
+        }
+        return;
+    }
     if args.len() < 3 || args[1] != "check" {
         usage();
     }
